@@ -3,7 +3,9 @@ import glob, json, os
 import vf
 import codec_common as cc
 
-MEM_A, MEM_B = 1024, 16777216      # the same budget as Props/C02.v (mem_A, mem_B)
+MEM_A, MEM_B = 478066, 310685      # the same budget as Props/C02.v (mem_A, mem_B): theorem C02_memory
+# the inputs of the three repaired findings must be rejected quickly and without noticeable allocation
+REG_ALLOC, REG_MS = 1 << 20, 1000
 MAX_MS = 5000
 
 
@@ -19,12 +21,15 @@ def classify(o):
         fam = "variant-dimension-count"
     if o["out"] in ("panic", "killed"):
         what = "decoding %d bytes into %s: %s" % (o["len"], o["ty"], "panic" if o["out"] == "panic" else "process died / timed out (fatal error, out of memory or hang)")
-        return (fam or "%s/%s/%s" % (o["out"], o["ty"], src.split(" ")[0]), what)
+        return ("%s/%s/%s" % (o["out"], o["ty"], (fam or src.split(" ")[0])), what)
+    if fam and (o.get("alloc", 0) > REG_ALLOC or o.get("ms", 0) > REG_MS or (o["out"] == "ok" and not src.endswith((" 1 dimensions of 1", " 10 dimensions of 1")) and o["len"] > 600)):
+        return ("regression/" + fam, "the input of the repaired finding %s is no longer rejected cheaply: %d bytes -> %s, %d bytes allocated, %d ms"
+                % (fam, o["len"], o["out"], o.get("alloc", 0), o.get("ms", 0)))
     if o.get("alloc", 0) > MEM_A * o["len"] + MEM_B:
-        return (fam or "alloc/%s/%s" % (o["ty"], src.split(" ")[0]),
+        return ("alloc/%s/%s" % (o["ty"], src.split(" ")[0]),
                 "decoding %d bytes into %s allocated %d bytes (> %d*len + %d)" % (o["len"], o["ty"], o["alloc"], MEM_A, MEM_B))
     if o.get("ms", 0) > MAX_MS:
-        return (fam or "slow/%s/%s" % (o["ty"], src.split(" ")[0]), "decoding %d bytes took %d ms" % (o["len"], o["ms"]))
+        return ("slow/%s/%s" % (o["ty"], src.split(" ")[0]), "decoding %d bytes took %d ms" % (o["len"], o["ms"]))
     return None
 
 
@@ -50,10 +55,10 @@ def run(ctx):
         ctx.broken_tie("harness does not build or crashed", err)
         return
     obs += o
-    # replay of the known nesting-depth finding: a chain of 3 million nested Variants (child limited to 700 MB)
+    # regression of the repaired nesting-depth finding: a chain of 3 million nested Variants must be rejected at level 101
     empty = os.path.join(ctx.work, "empty.jsonl")
     open(empty, "w").close()
-    o, err = cc.run_hostile(ctx, 0, deep=3000000, cases_file=empty, timeout="30s", memkb=700000)
+    o, err = cc.run_hostile(ctx, 0, deep=3000000, cases_file=empty, timeout="30s")
     if o is None:
         ctx.broken_tie("harness crashed on the deep chain", err)
         return
@@ -101,7 +106,7 @@ def run(ctx):
     distinct = {(ob["ty"], ob.get("hex", ob.get("src"))) for ob in obs if ob["len"] > 0}
     ctx.coverage.update({
         "evaluations": len(obs), "distinct_nontrivial": len(distinct),
-        "rule": "handcrafted boundary inputs (length prefixes -2,-1,0,2^31-1; length prefixes of 16 MB .. 4 GB with no data at every Buffer.ReadBytes/ReadString site; dimension products overflowing int32 and wrapping modulo 2^64 to the array length 0, -1, 1, 4; all 256 encoding masks of DataValue and DiagnosticInfo, alone and nested; every Variant type id x scalar/array with and without data; nesting chains; extension object bodies) + %d seeded mutations (truncate, bit flip, byte, 4-byte length overwrite, trailing bytes) of valid encodings of generated values of random registered types + random bytes; distinct = distinct (type, input)" % n,
+        "rule": "handcrafted boundary inputs (length prefixes -2,-1,0,2^31-1; length prefixes of 16 MB .. 4 GB with no data at every Buffer.ReadBytes/ReadString site; dimension products overflowing int32 and wrapping modulo 2^64 to the array length 0, -1, 1, 4; all 256 encoding masks of DataValue and DiagnosticInfo, alone and nested; every Variant type id x scalar/array with and without data; nesting chains incl. depth 98..101 around ua.MaxNestingLevel and 3 million; 31..64 dimensions; array lengths one above the remaining bytes; extension object bodies) + %d seeded mutations (truncate, bit flip, byte, 4-byte length overwrite, trailing bytes) of valid encodings of generated values of random registered types + random bytes; distinct = distinct (type, input)" % n,
         "samples": [{k: ob[k] for k in ob if k not in ("val", "hex2")} for ob in obs[:2] + obs[-2:]],
         "outcomes": outs,
         "types_hit": len({ob["ty"] for ob in obs}),
@@ -110,5 +115,5 @@ def run(ctx):
         "max_alloc_per_input_byte": max((ob.get("alloc", 0) / (ob["len"] + 1) for ob in obs), default=0),
         "memory_budget": "alloc <= %d*len + %d, time <= %d ms" % (MEM_A, MEM_B, MAX_MS),
     })
-    ctx.notes.append("memory: the model accounts allocations (al); Go's TotalAlloc delta must be <= 3*al + 256*len + 524288 in every case (the constant covers reflect.SliceOf creating a new slice type once per process) (validated from below); a linear bound is refuted (C02_refuted_amplification/_dimensions), no positive memory theorem is claimed")
+    ctx.notes.append("memory: the model accounts allocations (al); Go's TotalAlloc delta must be <= 3*al + 256*len + 524288 in every case (the constant covers reflect.SliceOf creating a new slice type once per process); theorem C02_memory bounds al by %d*len + %d for every input; the inputs of the three repaired findings (nesting depth, nesting amplification, dimension count) must be rejected within %d ms and %d bytes" % (MEM_A, MEM_B, REG_MS, REG_ALLOC))
     ctx.conclude(proof_ok, corr_ok, new, detail)
